@@ -2,6 +2,7 @@ package main
 
 import (
 	"fmt"
+	"go/token"
 	"go/types"
 	"sort"
 	"strings"
@@ -164,5 +165,154 @@ func runC06(r *Run) {
 				fmt.Sprintf("binder.%s hands utils.UnsafeString views of the request buffer to the schema decoder: string fields of the bound struct alias request memory and change when the buffers are reused, also with Immutable", b))
 		}
 		r.atLeast("visitor-based binders", n, 5)
+	})
+
+	r.rule("R3", "request memory is never rewritten in place (second clause: values are stable until the handler returns): in-place folders are applied to private buffers only (E3, alias flow)", func() {
+		mutators := map[string]bool{"github.com/gofiber/utils/v2.ToLowerBytes": true, "github.com/gofiber/utils/v2.ToUpperBytes": true}
+		fieldStores := map[string][]ssa.Value{}
+		indexed := false
+		index := func() {
+			if indexed {
+				return
+			}
+			indexed = true
+			r.P.AllFuncs("*", func(f *ssa.Function) {
+				for _, fr := range fieldRefsOne(f) {
+					if fr.Write && fr.Val != nil {
+						fieldStores[fr.Name] = append(fieldStores[fr.Name], fr.Val)
+					}
+				}
+			})
+		}
+		isReqAccessor := func(c *ssa.Call) bool {
+			sc := c.Call.StaticCallee()
+			if sc == nil || sc.Signature.Recv() == nil {
+				return false
+			}
+			rt := types.TypeString(sc.Signature.Recv().Type(), nil)
+			if !(strings.Contains(rt, "fasthttp.RequestHeader") || strings.HasSuffix(rt, "fasthttp.Request") || strings.Contains(rt, "fasthttp.URI") || strings.Contains(rt, "fasthttp.Args") || strings.Contains(rt, "fasthttp.RequestCtx")) {
+				return false
+			}
+			res := sc.Signature.Results()
+			return res.Len() >= 1 && isByteSeq(res.At(0).Type()) && !strings.HasPrefix(sc.Name(), "Append")
+		}
+		visitorParam := func(p *ssa.Parameter) bool {
+			fn := p.Parent()
+			if fn == nil || fn.Parent() == nil || !isByteSeq(p.Type()) {
+				return false
+			}
+			for _, b := range fn.Parent().Blocks {
+				for _, in := range b.Instrs {
+					ci, ok := in.(ssa.CallInstruction)
+					if !ok || !strings.Contains(calleeName(ci.Common()), "github.com/valyala/fasthttp") {
+						continue
+					}
+					for _, a := range ci.Common().Args {
+						if mc, ok := a.(*ssa.MakeClosure); ok && mc.Fn == ssa.Value(fn) {
+							return true
+						}
+					}
+				}
+			}
+			return false
+		}
+		var aliases func(v ssa.Value, seen map[ssa.Value]bool, depth int) string
+		aliases = func(v ssa.Value, seen map[ssa.Value]bool, depth int) string {
+			if v == nil || seen[v] || depth > 6 {
+				return ""
+			}
+			seen[v] = true
+			switch x := v.(type) {
+			case *ssa.Call:
+				n := calleeName(&x.Call)
+				if isReqAccessor(x) {
+					return short(n)
+				}
+				switch {
+				case n == "builtin:append":
+					return aliases(x.Call.Args[0], seen, depth)
+				case strings.HasSuffix(n, "utils/v2.UnsafeBytes") || strings.HasSuffix(n, "utils/v2.UnsafeString") || mutators[n]:
+					return aliases(x.Call.Args[0], seen, depth)
+				}
+				if g := transparentCallee(x.Parent(), x); g != nil {
+					for _, ri := range instrsWhereOne(g, isReturn) {
+						if w := aliases(retOperand(ri.(*ssa.Return), 0), seen, depth+1); w != "" {
+							return w
+						}
+					}
+				}
+				return ""
+			case *ssa.Slice:
+				return aliases(x.X, seen, depth)
+			case *ssa.ChangeType:
+				return aliases(x.X, seen, depth)
+			case *ssa.Convert:
+				// string <-> []byte conversions copy
+				_, fromStr := x.X.Type().Underlying().(*types.Basic)
+				_, toStr := x.Type().Underlying().(*types.Basic)
+				if fromStr != toStr {
+					return ""
+				}
+				return aliases(x.X, seen, depth)
+			case *ssa.Phi:
+				for _, e := range x.Edges {
+					if w := aliases(e, seen, depth); w != "" {
+						return w
+					}
+				}
+			case *ssa.Parameter:
+				if visitorParam(x) {
+					return "a fasthttp visitor's argument"
+				}
+				if g := x.Parent(); g != nil && g.Parent() == nil && isTransparent(g, pkgOfFn(g)) {
+					for i, gp := range g.Params {
+						if gp != x {
+							continue
+						}
+						for _, c := range staticCallersOf(g) {
+							if i < len(c.Call.Args) {
+								if w := aliases(c.Call.Args[i], seen, depth+1); w != "" {
+									return w
+								}
+							}
+						}
+					}
+				}
+			case *ssa.UnOp:
+				if x.Op != token.MUL {
+					return ""
+				}
+				if a := rootAlloc(x.X); a != nil {
+					for _, st := range storesInto(a) {
+						if w := aliases(st.Val, seen, depth); w != "" {
+							return w
+						}
+					}
+					return ""
+				}
+				if fv := fieldOfValue(x); fv != nil {
+					index()
+					for _, sv := range fieldStores[fieldOwner(fv)+"."+fv.Name()] {
+						if w := aliases(sv, seen, depth+1); w != "" {
+							return w
+						}
+					}
+				}
+			}
+			return ""
+		}
+		n := 0
+		r.P.AllFuncs("*", func(f *ssa.Function) {
+			for _, c := range callsIn(f, false) {
+				if !mutators[c.Name] {
+					continue
+				}
+				n++
+				w := aliases(c.Common.Args[0], map[ssa.Value]bool{}, 0)
+				r.check(w == "", fmt.Sprintf("%s:%s#%d:private-buffer", short(f.String()), short(c.Name), n), r.pos(c.Instr), "the folded buffer is private (a copy or the context's own scratch buffer)",
+					"request memory ("+w+") is folded in place: a header value the handler already obtained changes under it, and later readers — also under Immutable — see the rewritten text (e.g. a multipart boundary or parameter name in lower case)")
+			}
+		})
+		r.atLeast("in-place folder call sites", n, 2)
 	})
 }
